@@ -80,6 +80,33 @@ func TestDnsAdversarial(t *testing.T) {
 			os.Exit(0)
 		}
 	}
+	// a lookup runs under a real-time watchdog on top of its context: code that spins (and so never looks at its context)
+	// cannot be stopped - it is reported and the driver ends
+	resolveGuarded := func(kind, key string, res *ech.Resolver, ctx context.Context, name string, b []byte) (ech.ResolveResult, error) {
+		type out struct {
+			rr  ech.ResolveResult
+			err error
+			p   any
+		}
+		ch := make(chan out, 1)
+		go func() {
+			var o out
+			defer func() { o.p = recover(); ch <- o }()
+			o.rr, o.err = res.Resolve(ctx, name)
+		}()
+		select {
+		case o := <-ch:
+			if o.p != nil {
+				panic(o.p)
+			}
+			return o.rr, o.err
+		case <-time.After(5*time.Second + watchdogLimit()):
+			noteHang()
+			w.Write(Ev{"kind": kind, "key": key, "diff": "Resolver.Resolve does not return: its 5 s context ended long ago and the DoH server has answered (spinning or deadlocked)", "msg": fmt.Sprintf("%x", b[:min(len(b), 200)]), "len": len(b)})
+			report(kind, key, "hang", b)
+		}
+		return ech.ResolveResult{}, nil
+	}
 	check := func(kind, key string, b []byte) *dns.Message {
 		nEval++
 		m, diff, alloc, d := decodeGuarded(b)
@@ -119,7 +146,7 @@ func TestDnsAdversarial(t *testing.T) {
 			res, _ := ech.NewResolver(srv.url())
 			ctx, cancel := context.WithTimeout(context.Background(), 5*time.Second)
 			defer cancel()
-			res.Resolve(ctx, "a.bc")
+			resolveGuarded(kind+"-resolve", key, res, ctx, "a.bc", b)
 		}()
 	}
 	for ci := range cases {
@@ -371,7 +398,7 @@ func TestDnsAdversarial(t *testing.T) {
 					res, _ := ech.NewResolver(srv2.url())
 					ctx, cancel := context.WithTimeout(context.Background(), 5*time.Second)
 					defer cancel()
-					rr, err := res.Resolve(ctx, "origin.example")
+					rr, err := resolveGuarded("partial-failure", fmt.Sprintf("%s/%d", failing, how), res, ctx, "origin.example", nil)
 					if err == nil {
 						for range rr.Targets("tcp") {
 						}
